@@ -41,6 +41,18 @@ static inline void do_join(void) {
   }
   vm_progress();
 }
+static inline void do_join_noresult(void) {   /* fiber_join(f, NULL): the caller is not interested in the value */
+  int r = fiber_join(k_fiber[1], 0);
+  if (r == FIBER_SUCCESS) {
+    uint64_t s = __atomic_fetch_add(&successes, 1, __ATOMIC_SEQ_CST);
+    vm_assert(s == 0, "C04 join: two joiners succeeded for one fiber");
+    vm_assert(t_returned == 1, "C04 join: join/tryjoin succeeded before the fiber's function returned");
+    /* the value travels through the joiner's own result slot; it must not stay there, or a later join of the joiner
+       would deliver the joined fiber's value instead of the joiner's own */
+    vm_assert(k_fiber[vm_self()]->result == 0, "C04 join: the joiner's result slot still holds the joined fiber's return value after fiber_join(f, NULL) (a later join of the joiner would deliver a stale value)");
+  }
+  vm_progress();
+}
 static inline void do_tryjoin(void) {
   for (int i = 0; i < 2; i++) {
     uint64_t detached_before = detach_done;
@@ -62,7 +74,8 @@ static inline void do_detach(void) {
 #define ACT_J 1
 #define ACT_Y 2
 #define ACT_D 3
-static inline void act(int a) { if (a == ACT_J) do_join(); else if (a == ACT_Y) do_tryjoin(); else do_detach(); }
+#define ACT_N 4
+static inline void act(int a) { if (a == ACT_J) do_join(); else if (a == ACT_Y) do_tryjoin(); else if (a == ACT_N) do_join_noresult(); else do_detach(); }
 void vm_thread_2(void) { act(A2); }
 #if NF > 2
 void vm_thread_3(void) { act(A3); }
